@@ -817,11 +817,11 @@ pub(crate) fn t_nocell(c: TCfg, op: NoCellOp) {
         }
         Cuu => {
             assert!(row == up_to(pre.row, k), "[C05] CUU moves n rows up, stopping at the top margin unless it starts above it");
-            assert!(vert_col_ok && !pw, "[C05] a vertical move keeps the column");
+            assert!(vert_col_ok && !pw, "[C05][C02] a vertical move keeps the column and leaves the wrap-pending position");
         }
         Cud | Vpr => {
             assert!(row == down_to(pre.row, k), "[C05] CUD/VPR move n rows down, stopping at the bottom margin unless they start below it");
-            assert!(vert_col_ok && !pw, "[C05] a vertical move keeps the column");
+            assert!(vert_col_ok && !pw, "[C05][C02] a vertical move keeps the column and leaves the wrap-pending position");
         }
         Cnl => {
             assert!(row == down_to(pre.row, k) && col == 0 && !pw, "[C05] CNL moves n rows down to the first column");
@@ -836,7 +836,7 @@ pub(crate) fn t_nocell(c: TCfg, op: NoCellOp) {
         Vpa => {
             let want = if rtop + (k - 1) <= rbot { rtop + (k - 1) } else { rbot };
             assert!(row == want, "[C05] VPA places the cursor at the 1-based row, clamped to the screen or (origin mode) the region");
-            assert!(vert_col_ok && !pw, "[C05] a vertical move keeps the column");
+            assert!(vert_col_ok && !pw, "[C05][C02] a vertical move keeps the column and leaves the wrap-pending position");
         }
         Cup => {
             let kc = n1(m);
@@ -864,14 +864,14 @@ pub(crate) fn t_nocell(c: TCfg, op: NoCellOp) {
             if op == NelOffMargin || pre.new_line {
                 assert!(col == 0 && !pw, "[C05] NEL (and LF in new-line mode) return to the first column");
             } else if pre.row < rows - 1 {
-                assert!(vert_col_ok && !pw, "[C05] LF keeps the column");
+                assert!(vert_col_ok && !pw, "[C05][C02] LF keeps the column and leaves the wrap-pending position");
             }
         }
         RiOffMargin => {
             let want = if pre.row > 0 { pre.row - 1 } else { 0 };
             assert!(row == want, "[C05] RI off the top margin moves up exactly one row whatever the origin mode");
             if pre.row > 0 {
-                assert!(vert_col_ok && !pw, "[C05] RI keeps the column");
+                assert!(vert_col_ok && !pw, "[C05][C02] RI keeps the column and leaves the wrap-pending position");
             }
         }
         Decstbm => {
@@ -1064,7 +1064,7 @@ pub(crate) fn t_scroll(c: TCfg, op: ScrollOp, nfix: u32) {
         Dl => t.execute(Function::Dl(n)),
     }
     assert!(b_len(&t.buffer) == post_len, "[C06][C14] lines() grows by exactly the rows scrolled off the top of a range that starts at the first row, and by nothing otherwise");
-    check_exp!(&t, &w, e, "[C06] scrolling shifts exactly the rows of its range by n, blanks the vacated rows in the current pen and leaves every other line unchanged", "[C06] scrolling keeps the soft-wrap marks of the lines it moves or leaves alone");
+    check_exp!(&t, &w, e, "[C06][C08] scrolling shifts exactly the rows of its range by n, blanks the vacated rows in the current pen and leaves every other line unchanged", "[C06] scrolling keeps the soft-wrap marks of the lines it moves or leaves alone");
     // cursor
     let (col, crow, pw) = (t.cursor.col, t.cursor.row, t.pending_wrap);
     match op {
@@ -1080,7 +1080,7 @@ pub(crate) fn t_scroll(c: TCfg, op: ScrollOp, nfix: u32) {
             if op == Nel || pre.new_line {
                 assert!(col == 0 && !pw, "[C05] NEL (and LF in new-line mode) return to the first column");
             } else {
-                assert!(col == pre.col || (pre.col == cols && col == cols - 1), "[C05] LF keeps the column");
+                assert!(col == pre.col || (pre.col == cols && col == cols - 1), "[C05][C02] LF keeps the column and leaves the wrap-pending position");
             }
         }
         Ri => {
@@ -1209,7 +1209,7 @@ pub(crate) fn t_erase(c: TCfg, op: EraseOp) {
         El2 => t.execute(Function::El(ElScope::All)),
         Ech => t.execute(Function::Ech(n)),
     }
-    check_exp!(&t, &w, e, "[C07] erasing replaces exactly the cells of its extent by blanks in the current pen and leaves every other cell alone", "[C07] a row stops being soft-wrapped when its tail is erased, and no other mark changes");
+    check_exp!(&t, &w, e, "[C07][C08] erasing replaces exactly the cells of its extent by blanks in the current pen and leaves every other cell alone", "[C07] a row stops being soft-wrapped when its tail is erased, and no other mark changes");
     let allow = Allow::default();
     frame(&pre, &t, &allow, &tw);
     assert_inv(&t);
@@ -1280,7 +1280,7 @@ pub(crate) fn t_edit(c: TCfg, op: EditOp) {
         Dch => t.execute(Function::Dch(n)),
         Decaln => t.execute(Function::Decaln),
     }
-    check_exp!(&t, &w, e, "[C07] ICH/DCH shift the rest of the row, blank the vacated cells in the current pen and drop what falls off; DECALN fills the screen with E; nothing else changes", "[C07] a row stops being soft-wrapped when characters are deleted from it, and no other mark changes");
+    check_exp!(&t, &w, e, "[C07][C08] ICH/DCH shift the rest of the row, blank the vacated cells in the current pen and drop what falls off; DECALN fills the screen with E; nothing else changes", "[C07] a row stops being soft-wrapped when characters are deleted from it, and no other mark changes");
     let mut allow = Allow::default();
     if op == Dch {
         allow.cursor = true;
